@@ -153,10 +153,14 @@ Classes(e) == {c \in [tpl : TplsOf(e), idx : 1..MaxLeaves, mut : Muts] :
 ---------------------------------------------------------------------------
 (* Known deviations of the pinned tree (each one found by this check and    *)
 (* reproduced on the real code; see KNOWN_FINDINGS.json).  A deviation       *)
-(* says: inputs of this class make the step panic.                          *)
+(* says: inputs of this class break the contract (the step panics, or it     *)
+(* returns after allocating / computing out of proportion).                 *)
 
+\* repaired on the tree: HelloEndsAfterRandom, SetExtensionSlicesPast, EmptyTurnData, TurnTcpFrameLength,
+\* MidPlusOneOverflows.  Still open (the step returns, but allocates far beyond AllocFactor):
+\* StapAAmplifies, MediaSectionsUnbounded.
 DeviationNames == {"HelloEndsAfterRandom", "SetExtensionSlicesPast", "EmptyTurnData", "TurnTcpFrameLength",
-                   "MidPlusOneOverflows"}
+                   "MidPlusOneOverflows", "StapAAmplifies", "MediaSectionsUnbounded"}
 
 Crashes(e, t, l, m) ==
   \/ /\ "HelloEndsAfterRandom" \in Deviations
@@ -170,6 +174,10 @@ Crashes(e, t, l, m) ==
      /\ e = "turn_tcp" /\ l.n = "framelen" /\ m \in {"len_max"}
   \/ /\ "MidPlusOneOverflows" \in Deviations
      /\ e = "pc_sdp" /\ l.n = "mid" /\ m = "len_max"
+  \/ /\ "StapAAmplifies" \in Deviations
+     /\ e \in {"rtp", "rtp_transport"} /\ t = "rtp.stapa" /\ m = "dup_fill_empty"
+  \/ /\ "MediaSectionsUnbounded" \in Deviations
+     /\ e = "pc_sdp" /\ l.n \in {"m.line", "mapp.line"} /\ m = "dup_fill"
 
 ---------------------------------------------------------------------------
 (* Behaviour                                                                *)
